@@ -37,17 +37,19 @@ CHECKS["C02"] = dict(
 
 CHECKS["C09"] = dict(
     text=("Theorems for every index array with distinct vertices per triangle: adjacency values = brute-force triangle / half-edge counts; "
-          "is_closed, is_manifold, is_oriented, has_free_vertices each iff their combinatorial definition. euler, vertex_degrees, "
-          "boundary_loops (fuelled model of the CSC walk) and edges() are modelled and tied by exact correspondence over all 4-vertex and "
-          "(thorough) all 58 848 five-vertex complexes plus structured families, with brute-force oracles; no theorem yet for those "
-          "four (partial)."),
+          "is_closed, is_manifold, is_oriented, has_free_vertices each iff their combinatorial definition; vertex_degrees = number of "
+          "distinct neighbours; euler = V - E + F with E the number of undirected edges; edges() on oriented meshes lists every inner "
+          "edge (i<j, in exactly two triangles) once with triangles carrying its two half-edges. boundary_loops (fuelled model of "
+          "the CSC walk) is modelled and, like the others, tied by exact correspondence over all 4-vertex and (thorough) all 58 848 "
+          "five-vertex complexes plus structured families, with brute-force oracles; no theorem for the loop walk (partial)."),
     design="6/C09", technique="Coq proof (counting lemmas over key lists) + exhaustive small-complex correspondence via vm_compute")
 
 CHECKS["C10"] = dict(
     text=("Theorems about the Gallina model of orient_ (half-edge table, unique-with-counts test, lexsort pairing, signed neighbour "
           "matrix, fuelled flood incl. re-seeding per component, flips, volume test): for every input the result keeps triangle order and "
           "vertex sets; the return value is the number of triangles whose winding changed; a global flip negates the enclosed volume and "
-          "the returned closed oriented mesh has volume >= 0; an edge in >= 3 triangles gives ValueError. Termination, 'is_oriented "
+          "the returned closed oriented mesh has volume >= 0; an edge in >= 3 triangles gives ValueError; an oriented mesh (open, or "
+          "closed with volume >= 0) is a fixed point (unchanged, 0 returned). Termination, 'is_oriented "
           "afterwards' and idempotence are decided by correspondence (model = implementation on every generated flip pattern, both "
           "calls) plus brute-force oracles; no theorem for them yet (partial)."),
     design="6/C10", technique="Coq proof (structural + counting lemmas, ring) + vm_compute correspondence over flip patterns")
